@@ -83,7 +83,7 @@ class World:
         for n in names:
             self.net.dns[n] = ip
         if udp_net is not None:
-            self.net.udp_nets.setdefault(udp_net, []).append(module)
+            self.net.udp_nets.setdefault(None if udp_net == "unbound" else udp_net, []).append(module)
 
     def log(self, **rec):
         rec["op"] = self.hits.cur_op
@@ -608,8 +608,9 @@ class EipEndpoint:
             self.session = None
 
     def reply(self, frame, info=None):
-        if self.reply_faults is not None:
-            frame = self.reply_faults(frame, info or {})
+        hook = getattr(self.module, "reply_hook", None)
+        if hook is not None:
+            frame = hook(frame, info or {})
             if frame is None:
                 return
         self.conn.server_send(frame)
